@@ -14,6 +14,9 @@ FINITE_OUT = ['same', 'small', 'eq', 'big']
 FAULT_OUT = ['nan', 'pinf', 'ninf', 'warn', 'exc', 'zero']
 
 
+WRITE_MODES = ['inplace', 'inplace', 'inplace', 'list-attr', 'list-item', 'replace_values']
+
+
 class Boom(Exception):
     pass
 
@@ -72,6 +75,8 @@ def make_model_class():
 
         def solve_t_before(self, t, **kw):
             self.__dict__['v_log'].append(('before', t, kw.get('iteration'), dict(kw)))
+            if (self.__dict__.get('v_write_mode') or 'inplace') != 'inplace':
+                self.A = [float(v) for v in self.__dict__['_A']]    # same values, new array
             self._fault(self.__dict__['v_before_fault'], t)
 
         def solve_t_after(self, t, **kw):
@@ -87,14 +92,29 @@ def make_model_class():
                 script = d['v_scripts_by_t'].get(tt, ())
             pair = script[iteration - 1] if iteration is not None and iteration - 1 < len(script) else ('same', 'same')
             tol = d['v_tol']
+            mode = d.get('v_write_mode') or 'inplace'
             for name, o in zip(('A', 'B'), pair):
                 arr = d['_' + name]
                 if o == 'exc':
                     raise Boom('pass')
                 if o == 'warn':
-                    arr[t] = np.log(self._X[t] * 0.0)   # RuntimeWarning: divide by zero -> -inf
+                    val = np.log(self._X[t] * 0.0)   # RuntimeWarning: divide by zero -> -inf
                 else:
-                    arr[t] = apply_outcome(float(arr[t]), o, tol)
+                    val = apply_outcome(float(arr[t]), o, tol)
+                if mode == 'inplace':
+                    arr[t] = val
+                else:
+                    # the same assignment made through a whole-series write (a Python sequence replaces the stored array)
+                    series = [float(v) for v in arr]
+                    series[t] = float(val)
+                    if mode == 'list-attr':
+                        setattr(self, name, series)
+                    elif mode == 'list-item':
+                        self[name] = series
+                    elif mode == 'replace_values':
+                        self.replace_values(**{name: series})
+                    else:
+                        raise ValueError(mode)
             d.setdefault('v_passvals', []).append((t, iteration, {nm: float(d['_' + nm][t]) for nm in ('A', 'B', 'X')}))
 
     return ScriptedModel
@@ -177,6 +197,7 @@ def run_solve_t(Model, case):
               before_fault=case.get('before_fault'), after_fault=case.get('after_fault'))
     if case.get('check') is not None:
         m.check = list(case['check'])
+    m.__dict__['v_write_mode'] = case.get('write_mode')
     for name in ('A', 'B'):
         m.__dict__['_' + name][:] = 0.0
     # distinct, recognisable values in every period
@@ -188,6 +209,10 @@ def run_solve_t(Model, case):
         if 0 <= src < n:
             m.A[src] = case['offset_source'].get('A', 0.0)
             m.B[src] = case['offset_source'].get('B', 0.0)
+    if case.get('prior_record'):
+        # every period already carries a solution record from an earlier call
+        m.status[:] = case['prior_record'][0]
+        m.iterations[:] = case['prior_record'][1]
     before = snapshot_model(m)
     kw = dict(min_iter=case['min_iter'], max_iter=case['max_iter'], tol=case['tol'], failures=case['failures'],
               errors=case['errors'], catch_first_error=case['cfe'])
